@@ -369,9 +369,10 @@ theorem honest_partial_not_rejected (x : Ctx) (st : State) (i : Input) (sh : Sha
         · subst h; exact rejectFree_of_ok _ ((rejectIf_ok_iff _ _).mpr ((blt_false_iff _ _).mpr hh.size))
         · unfold partialChecks at h
           simp only [List.mem_cons, List.mem_nil_iff, or_false] at h
-          rcases h with h | h | h | h | h | h <;> subst h
+          rcases h with h | h | h | h | h | h | h <;> subst h
           · exact rejectFree_of_ok _ ((rejectIf_ok_iff _ _).mpr (by simp [hh.ptype]))
           · rw [hh.typeRole]; exact rejectFree_of_ok _ rfl
+          · exact rejectFree_rejectIf _ _ rfl
           · exact rejectFree_of_ok _ hh.messages
           · unfold signerBehaviorPartial
             cases hst : st (i.vid, i.role, m.signer) with
